@@ -35,14 +35,25 @@ func naturalLoop(hdr *ssa.BasicBlock) map[*ssa.BasicBlock]bool {
 // the loop body is entered iff index < len(s), and the only way out of the loop is the
 // header test.
 func coversAll(fr *Frame, ia *ssa.IndexAddr, s ASlice) (bool, string) {
-	idxAI, ok := fr.intVal(ia.Index)
-	if !ok || len(idxAI.conds) != 0 {
-		return false, "index is not an exact integer"
-	}
-	j := idxAI.a.add(s.off) // absolute; s.off must be 0 for whole-slice coverage
 	if !(s.off.isConst() && s.off.c == 0) {
 		return false, "slice does not start at offset 0"
 	}
+	return coversIndex(fr, ia.Index, ia.Block(), s.ln)
+}
+
+// coversIndex: the access with index value idx, located in block blk, is executed for every
+// index 0..n-1 once each in increasing order.
+func coversIndex(fr *Frame, idx ssa.Value, blk *ssa.BasicBlock, n Aff, allowedExits ...*ssa.BasicBlock) (bool, string) {
+	idxAI, ok := fr.intVal(idx)
+	if !ok || len(idxAI.conds) != 0 {
+		return false, "index is not an exact integer"
+	}
+	j := idxAI.a
+	s := struct{ ln Aff }{n}
+	ia := struct {
+		Index ssa.Value
+		blk   *ssa.BasicBlock
+	}{idx, blk}
 	// the phi driving the index
 	var ph *ssa.Phi
 	var find func(v ssa.Value, depth int)
@@ -98,7 +109,7 @@ func coversAll(fr *Frame, ia *ssa.IndexAddr, s ASlice) (bool, string) {
 	}
 	_ = iff
 	loop := naturalLoop(hdr)
-	if !loop[ia.Block()] {
+	if !loop[ia.blk] {
 		return false, "access is outside the counter's loop"
 	}
 	var bodyIdx, exitIdx = -1, -1
@@ -126,7 +137,15 @@ func coversAll(fr *Frame, ia *ssa.IndexAddr, s ASlice) (bool, string) {
 		}
 		for _, sc := range b.Succs {
 			if !loop[sc] {
-				return false, "loop has an exit other than its header test"
+				allowed := false
+				for _, a := range allowedExits {
+					if a == sc {
+						allowed = true
+					}
+				}
+				if !allowed {
+					return false, "loop has an exit other than its header test"
+				}
 			}
 		}
 		if len(b.Succs) == 0 {
@@ -135,7 +154,7 @@ func coversAll(fr *Frame, ia *ssa.IndexAddr, s ASlice) (bool, string) {
 	}
 	// the access must be executed in every iteration: its block dominates every latch
 	for _, p := range hdr.Preds {
-		if isBackEdge(p, hdr) && !ia.Block().Dominates(p) {
+		if isBackEdge(p, hdr) && !ia.blk.Dominates(p) {
 			return false, "access is skipped on some iterations"
 		}
 	}
